@@ -568,7 +568,15 @@ impl<const M: usize> Drv<M> {
         }
         let nsize = self.new_size(blk.size, grow);
         let r = self.rng.below(10);
-        let nalign = if r < 6 { blk.align } else { self.pick_align() };
+        let nalign = if r < 5 {
+            blk.align
+        } else if r < 8 {
+            // the largest alignment the block happens to have (up to 4096): the "lucky" paths
+            let tz = (blk.addr | 4096).trailing_zeros();
+            1usize << self.rng.below(tz as u64 + 1)
+        } else {
+            self.pick_align()
+        };
         let Ok(nl) = Layout::from_size_align(nsize, nalign) else { return };
         let ol = Layout::from_size_align(blk.size, blk.align).unwrap();
         let zeroed = grow && self.rng.chance(1, 3);
